@@ -1,8 +1,16 @@
-(* Proofs about Model/FriCompress.v: decompress (compress p) = p for proofs whose query rounds are
-   openings of one tree per oracle / per commit-phase layer (the honest prover's
-   fri_prover_query_round, Model/FriProver.v) and that pass the verifier's fold-consistency checks;
-   for every number of queries, oracles, layers, every arity and cap height and ANY list of query
-   indices (repeated indices, indices sharing a coset at some layer). *)
+(* Proofs about Model/FriCompress.v: decompress (compress p) = p, for every number of queries,
+   oracles, layers, every arity and cap height and ANY list of query indices (repeated indices,
+   indices sharing a coset at some layer).
+
+   Sections 1-10 prove the round trip ABSTRACTLY (round_trip_gen): the query rounds are given by
+   functions of the index - per oracle a leaf and a Merkle path, per commit-phase layer a coset and
+   a Merkle path of the coset index - for which Merkle path compression is invertible on the keys
+   that occur ([CPS]), and the verifier's fold-consistency checks hold ([round_fold_ok]).
+   Section 11 instantiates it with the openings of ONE tree per oracle and per layer - the honest
+   prover's fri_prover_query_round, Model/FriProver.v - (fri_decompress_compress); section 12 shows
+   that accepted proofs pass the fold-consistency checks; section 13 that every proof of the honest
+   prover model round-trips.  Proofs/FriCompressAcc.v instantiates round_trip_gen with the functions
+   read off ANY accepted proof (or produces a hash collision). *)
 From Coq Require Import ZArith List Bool Lia Arith.
 From Verif Require Import Base.Field Gen.FieldConsts Model.Fp Model.Fp2 Model.FieldGeneric Model.Fri
   Model.Merkle Model.Dedup Model.FriProver Model.FriCompress
@@ -342,20 +350,24 @@ Proof.
 Qed.
 
 (* one commit-phase layer: s = bits folded before it, a = its arity bits, k = height of its tree *)
-Record level := { lv_s : nat; lv_a : nat; lv_k : nat; lv_cosets : list (list Fp2) }.
+(* a layer is described by two functions of the coset index: the coset's evaluations and the Merkle
+   path of the coset (for trees: the c-th coset and its opening; see section 11) *)
+Definition layer_fn : Type := ((nat -> list Fp2) * (nat -> list digest))%type.
+Record level := { lv_s : nat; lv_a : nat; lv_k : nat; lv_cos : nat -> list Fp2; lv_pth : nat -> list digest }.
 
-Fixpoint levels (s k : nat) (arities : list nat) (layers : list (list (list Fp2))) : list level :=
+Fixpoint levels (s k : nat) (arities : list nat) (layers : list layer_fn) : list level :=
   match arities, layers with
   | a :: at', cosets :: lt =>
-    {| lv_s := s; lv_a := a; lv_k := k - a; lv_cosets := cosets |} :: levels (s + a) (k - a) at' lt
+    {| lv_s := s; lv_a := a; lv_k := k - a; lv_cos := fst cosets; lv_pth := snd cosets |}
+    :: levels (s + a) (k - a) at' lt
   | _, _ => []
   end.
 
 (* coset index and index within the coset of query x at a level *)
 Definition ci (lv : level) (x : nat) : nat := x / 2 ^ (lv_s lv + lv_a lv).
 Definition wi (lv : level) (x : nat) : nat := (x / 2 ^ lv_s lv) mod 2 ^ lv_a lv.
-Definition coset (lv : level) (x : nat) : list Fp2 := nth (ci lv x) (lv_cosets lv) [].
-Definition lleaves (lv : level) : list (list Fp) := map flatten2 (lv_cosets lv).
+Definition coset (lv : level) (x : nat) : list Fp2 := lv_cos lv (ci lv x).
+Definition lopen (lv : level) (x : nat) : list digest := lv_pth lv (ci lv x).
 
 
 (* ---------------------------------------------------------------------------------------- *)
@@ -435,44 +447,44 @@ Section RoundTrip.
   Variable T2 : digest -> digest -> digest.
   Variable h n : nat.                      (* cap height, log2 of the LDE size *)
 
-  Notation opening := (Proofs.Merkle.opening Fp digest H T2).
-  Notation mprove := (Merkle.merkle_prove Fp digest H T2).
+  (* the openings (lf key, pth key) at the given keys compress and decompress (path_compression.rs) *)
+  Definition CPS (k : nat) (lf : nat -> list Fp) (pth : nat -> list digest) (keys : list nat) : Prop :=
+    exists cps,
+      compress_merkle_proofs digest h keys (map pth keys) = Some cps
+      /\ decompress_merkle_proofs Fp digest H T2 (map lf keys) keys cps k h = Some (map pth keys).
 
-  Definition lopen (lv : level) (x : nat) : list digest := opening (lv_k lv - h) (lleaves lv) (ci lv x).
-
-  (* sizes of the commit-phase trees: layer of height k - a with 2^(k-a) cosets of 2^a values *)
-  Fixpoint layers_ok (k : nat) (arities : list nat) (layers : list (list (list Fp2))) : Prop :=
+  (* sizes of the commit-phase layers: height k - a, cosets of 2^a values *)
+  Fixpoint flayers_ok (k : nat) (arities : list nat) (layers : list layer_fn) : Prop :=
     match arities, layers with
     | [], [] => h <= k
-    | a :: at', cosets :: lt =>
-      a <= k /\ length cosets = 2 ^ (k - a) /\ Forall (fun c => length c = 2 ^ a) cosets
-      /\ layers_ok (k - a) at' lt
+    | a :: at', lf :: lt =>
+      a <= k /\ (forall c, c < 2 ^ (k - a) -> length (fst lf c) = 2 ^ a) /\ flayers_ok (k - a) at' lt
     | _, _ => False
     end.
 
   Definition LvOk (lv : level) : Prop :=
-    lv_s lv + lv_a lv + lv_k lv = n /\ h <= lv_k lv /\ length (lv_cosets lv) = 2 ^ lv_k lv
-    /\ Forall (fun c => length c = 2 ^ lv_a lv) (lv_cosets lv).
+    lv_s lv + lv_a lv + lv_k lv = n /\ h <= lv_k lv
+    /\ (forall c, c < 2 ^ lv_k lv -> length (lv_cos lv c) = 2 ^ lv_a lv).
 
-  Lemma layers_ok_h : forall arities layers k, layers_ok k arities layers -> h <= k.
+  Lemma flayers_ok_h : forall arities layers k, flayers_ok k arities layers -> h <= k.
   Proof.
-    induction arities as [|a at' IH]; intros [|c lt] k Hok; cbn [layers_ok] in Hok; try contradiction; [exact Hok|].
-    destruct Hok as (Ha & _ & _ & Hr). apply IH in Hr. lia.
+    induction arities as [|a at' IH]; intros [|c lt] k Hok; cbn [flayers_ok] in Hok; try contradiction; [exact Hok|].
+    destruct Hok as (Ha & _ & Hr). apply IH in Hr. lia.
   Qed.
 
-  Lemma layers_ok_length : forall arities layers k, layers_ok k arities layers -> length layers = length arities.
+  Lemma flayers_ok_length : forall arities layers k, flayers_ok k arities layers -> length layers = length arities.
   Proof.
-    induction arities as [|a at' IH]; intros [|c lt] k Hok; cbn [layers_ok] in Hok; try contradiction; [reflexivity|].
-    destruct Hok as (_ & _ & _ & Hr). cbn [length]. f_equal. eapply IH. exact Hr.
+    induction arities as [|a at' IH]; intros [|c lt] k Hok; cbn [flayers_ok] in Hok; try contradiction; [reflexivity|].
+    destruct Hok as (_ & _ & Hr). cbn [length]. f_equal. eapply IH. exact Hr.
   Qed.
 
   Lemma levels_ok : forall arities layers s k,
-    s + k = n -> layers_ok k arities layers -> Forall LvOk (levels s k arities layers).
+    s + k = n -> flayers_ok k arities layers -> Forall LvOk (levels s k arities layers).
   Proof.
-    induction arities as [|a at' IH]; intros [|c lt] s k Hsk Hok; cbn [layers_ok] in Hok; try contradiction;
+    induction arities as [|a at' IH]; intros [|c lt] s k Hsk Hok; cbn [flayers_ok] in Hok; try contradiction;
       cbn [levels]; [constructor|].
-    destruct Hok as (Ha & Hl & Hc & Hr). constructor.
-    - unfold LvOk. cbn [lv_s lv_a lv_k lv_cosets]. pose proof (layers_ok_h _ _ _ Hr). repeat split; auto; lia.
+    destruct Hok as (Ha & Hc & Hr). constructor.
+    - unfold LvOk. cbn [lv_s lv_a lv_k lv_cos]. pose proof (flayers_ok_h _ _ _ Hr). repeat split; auto; lia.
     - apply IH; [lia|exact Hr].
   Qed.
 
@@ -500,66 +512,23 @@ Section RoundTrip.
 
   Lemma coset_length lv x : LvOk lv -> x < 2 ^ n -> length (coset lv x) = 2 ^ lv_a lv.
   Proof.
-    intros Hok Hx. pose proof (ci_lt lv x Hok Hx) as Hc. destruct Hok as (_ & _ & Hl & Hall).
-    rewrite Forall_forall in Hall. apply Hall. unfold coset. apply nth_In. lia.
-  Qed.
-
-  Lemma lleaves_nth lv c : nth c (lleaves lv) [] = flatten2 (nth c (lv_cosets lv) []).
-  Proof. unfold lleaves. change (@nil Fp) with (flatten2 []). apply map_nth. Qed.
-
-  Lemma lleaves_length lv : length (lleaves lv) = length (lv_cosets lv).
-  Proof. apply map_length. Qed.
-
-  Lemma initial_of_map x : h <= n -> x < 2 ^ n -> forall l, Forall (fun T => length T = 2 ^ n) l ->
-    initial_of H T2 l h x = Some (map (fun T => (nth x T [], opening (n - h) T x)) l).
-  Proof.
-    intros Hh Hx. induction l as [|T l IH]; intros Hl; [reflexivity|].
-    cbn [initial_of map]. inversion Hl as [|? ? HT Hl']; subst.
-    rewrite (merkle_prove_spec Fp digest H T2 T n h x HT Hh Hx).
-    rewrite (IH Hl'). reflexivity.
+    intros Hok Hx. pose proof (ci_lt lv x Hok Hx) as Hc. destruct Hok as (_ & _ & Hall).
+    apply Hall. exact Hc.
   Qed.
 
   (* ---------------------------------------------------------------------------------------- *)
-  (* 4. query rounds that open ONE tree per oracle and per layer (fri_prover_query_round)       *)
-  Variable its : list (list (list Fp)).    (* the leaves of the initial trees *)
-  Hypothesis its_len : Forall (fun T => length T = 2 ^ n) its.
-  Hypothesis h_le_n : h <= n.
-
-  Notation NT := (length its).
-  Definition T_ (t : nat) : list (list Fp) := nth t its [].
-
-  Lemma T_len t : t < NT -> length (T_ t) = 2 ^ n.
-  Proof. intros Ht. rewrite Forall_forall in its_len. apply its_len. apply nth_In. exact Ht. Qed.
+  (* 4. query rounds given by functions of the index: leaf and path per oracle, coset and path
+        per layer                                                                               *)
+  Variable NT : nat.                                  (* number of initial trees *)
+  Variable ileaf : nat -> nat -> list Fp.             (* oracle, index -> leaf *)
+  Variable ipath : nat -> nat -> list digest.         (* oracle, index -> Merkle path *)
 
   Definition gen_initial (x : nat) : list (list Fp * list digest) :=
-    map (fun t => (nth x (T_ t) [], opening (n - h) (T_ t) x)) (seq 0 NT).
+    map (fun t => (ileaf t x, ipath t x)) (seq 0 NT).
   Definition gen_steps (L : list level) (x : nat) : list fri_query_step :=
     map (fun lv => {| fs_evals := coset lv x; fs_siblings := lopen lv x |}) L.
   Definition gen_round (L : list level) (x : nat) : fri_query_round :=
     {| qr_initial := gen_initial x; qr_steps := gen_steps L x |}.
-
-  Lemma initial_of_gen x : x < 2 ^ n ->
-    initial_of H T2 its h x = Some (gen_initial x).
-  Proof.
-    intros Hx. unfold gen_initial, T_.
-    rewrite <- (map_nth_seq (fun T => (nth x T [], opening (n - h) T x)) [] its).
-    apply initial_of_map; assumption.
-  Qed.
-
-  Lemma query_steps_of_gen x : x < 2 ^ n -> forall arities layers s k,
-    s + k = n -> layers_ok k arities layers ->
-    query_steps_of H T2 layers arities h (x / 2 ^ s) = Some (gen_steps (levels s k arities layers) x).
-  Proof.
-    intros Hx. induction arities as [|a at' IH]; intros [|c lt] s k Hsk Hok; cbn [layers_ok] in Hok;
-      try contradiction; [reflexivity|].
-    destruct Hok as (Ha & Hl & Hc & Hr).
-    cbn [query_steps_of levels gen_steps map].
-    rewrite div_pow_add.
-    assert (Hci : x / 2 ^ (s + a) < 2 ^ (k - a)) by (apply div_pow_lt; replace (s + a + (k - a)) with n by lia; exact Hx).
-    rewrite (merkle_prove_spec Fp digest H T2 (map flatten2 c) (k - a) h (x / 2 ^ (s + a)))
-      by (try (rewrite map_length; exact Hl); try exact Hci; apply (layers_ok_h _ _ _ Hr)).
-    specialize (IH lt (s + a) (k - a) ltac:(lia) Hr). rewrite IH. reflexivity.
-  Qed.
 
   (* ---------------------------------------------------------------------------------------- *)
   (* 5. FriProof::compress on such rounds                                                       *)
@@ -583,30 +552,26 @@ Section RoundTrip.
     apply compress_all_length in E. rewrite E, combine_length. lia.
   Qed.
 
-  (* the compressed paths of the openings of one tree at the given leaf indices *)
-  Definition cps_of (leaves : list (list Fp)) (k : nat) (keys : list nat) : list (list digest) :=
-    match compress_merkle_proofs digest h keys (map (opening (k - h) leaves) keys) with
+  (* the compressed paths of a family of openings at the given keys *)
+  Definition cps_of (pth : nat -> list digest) (keys : list nat) : list (list digest) :=
+    match compress_merkle_proofs digest h keys (map pth keys) with
     | Some c => c
     | None => []
     end.
 
-  Lemma cps_of_ok leaves k keys :
-    length leaves = 2 ^ k -> h <= k -> keys <> [] -> (forall i, In i keys -> i < 2 ^ k) ->
-    compress_merkle_proofs digest h keys (map (opening (k - h) leaves) keys) = Some (cps_of leaves k keys)
-    /\ decompress_merkle_proofs Fp digest H T2 (map (fun i => nth i leaves []) keys) keys
-         (cps_of leaves k keys) k h = Some (map (opening (k - h) leaves) keys)
-    /\ length (cps_of leaves k keys) = length keys.
+  Lemma cps_of_ok k lf pth keys : CPS k lf pth keys ->
+    compress_merkle_proofs digest h keys (map pth keys) = Some (cps_of pth keys)
+    /\ decompress_merkle_proofs Fp digest H T2 (map lf keys) keys (cps_of pth keys) k h = Some (map pth keys)
+    /\ length (cps_of pth keys) = length keys.
   Proof.
-    intros Hl Hh Hne Hlt.
-    destruct (Proofs.MerkleCompression.decompress_compress Fp digest H T2 leaves k h Hl Hh keys Hne Hlt)
-      as (cps & Ec & Ed).
-    unfold cps_of. rewrite Ec. split; [reflexivity|]. split; [exact Ed|].
-    apply (compress_merkle_proofs_length keys (map (opening (k - h) leaves) keys) cps); [apply map_length|exact Ec].
+    intros (cps & Ec & Ed). unfold cps_of. rewrite Ec. split; [reflexivity|]. split; [exact Ed|].
+    apply (compress_merkle_proofs_length keys (map pth keys) cps); [apply map_length|exact Ec].
   Qed.
 
   Variable idx : list nat.
   Hypothesis idx_ne : idx <> [].
   Hypothesis idx_lt : forall x, In x idx -> x < 2 ^ n.
+  Hypothesis icps : forall t, t < NT -> CPS n (ileaf t) (ipath t) idx.
 
   Notation N := (length idx).
   Notation pos := (seq 0 (length idx)).
@@ -635,21 +600,21 @@ Section RoundTrip.
   Qed.
 
   (* row entries of the transposition *)
-  Definition fI (t x : nat) : nat * list Fp * list digest := (x, nth x (T_ t) [], opening (n - h) (T_ t) x).
+  Definition fI (t x : nat) : nat * list Fp * list digest := (x, ileaf t x, ipath t x).
   Definition fS (lv : level) (x : nat) : nat * list Fp2 * list digest :=
     (ci lv x, remove_total (wi lv x) (coset lv x), lopen lv x).
 
   Lemma step_entries_spec x : x < 2 ^ n -> forall arities0 layers0 s k,
-    s + k = n -> layers_ok k arities0 layers0 ->
+    s + k = n -> flayers_ok k arities0 layers0 ->
     step_entries (x / 2 ^ s) (gen_steps (levels s k arities0 layers0) x) arities0
     = Some (map (fun lv => fS lv x) (levels s k arities0 layers0)).
   Proof.
-    intros Hx. induction arities0 as [|a at' IH]; intros [|c lt] s k Hsk Hok; cbn [layers_ok] in Hok;
+    intros Hx. induction arities0 as [|a at' IH]; intros [|c lt] s k Hsk Hok; cbn [flayers_ok] in Hok;
       try contradiction; [reflexivity|].
     pose proof (levels_ok (a :: at') (c :: lt) s k Hsk Hok) as HL. cbn [levels] in HL. inversion HL as [|lv0 Lr Hlv0 _]; subst.
-    destruct Hok as (Ha & Hl & Hc & Hr).
+    destruct Hok as (Ha & Hc & Hr).
     cbn [levels gen_steps map step_entries fs_evals fs_siblings].
-    set (lv := {| lv_s := s; lv_a := a; lv_k := k - a; lv_cosets := c |}) in *.
+    set (lv := {| lv_s := s; lv_a := a; lv_k := k - a; lv_cos := fst c; lv_pth := snd c |}) in *.
     change ((x / 2 ^ s) mod 2 ^ a) with (wi lv x).
     rewrite remove_nth_spec by (rewrite (coset_length lv x Hlv0 Hx); apply wi_lt).
     rewrite div_pow_add.
@@ -659,16 +624,18 @@ Section RoundTrip.
 
   Section WithLayers.
   Variable arities : list nat.
-  Variable layers : list (list (list Fp2)).
-  Hypothesis Hok : layers_ok n arities layers.
+  Variable layers : list layer_fn.
+  Hypothesis Hok : flayers_ok n arities layers.
 
   Notation L := (levels 0 n arities layers).
+  Hypothesis lcps : forall lv, In lv L ->
+    CPS (lv_k lv) (fun c => flatten2 (lv_cos lv c)) (lv_pth lv) (map (ci lv) idx).
 
   Lemma L_ok : Forall LvOk L.
   Proof. apply levels_ok; [reflexivity|exact Hok]. Qed.
 
   Lemma L_length : length L = length arities.
-  Proof. apply levels_length. eapply layers_ok_length. exact Hok. Qed.
+  Proof. apply levels_length. eapply flayers_ok_length. exact Hok. Qed.
 
   Lemma transpose_spec : forall todo done,
     (forall x, In x todo -> x < 2 ^ n) ->
@@ -680,7 +647,7 @@ Section RoundTrip.
     - cbn [map combine transpose_loop]. rewrite app_nil_r. reflexivity.
     - cbn [map combine transpose_loop gen_round qr_initial qr_steps].
       unfold gen_initial, init_entries. rewrite map_map. cbn [fst snd].
-      change (map (fun t => (x, nth x (T_ t) [], opening (n - h) (T_ t) x)) (seq 0 NT))
+      change (map (fun t => (x, ileaf t x, ipath t x)) (seq 0 NT))
         with (map (fun t => fI t x) (seq 0 NT)).
       rewrite push_rows_map.
       pose proof (step_entries_spec x (Hlt x (or_introl eq_refl)) arities layers 0 n eq_refl Hok) as Hse.
@@ -697,10 +664,10 @@ Section RoundTrip.
 
   (* the compressed rows, by position of the query *)
   Definition icol (t i : nat) : list Fp * list digest :=
-    (nth (xi i) (T_ t) [], nth i (cps_of (T_ t) n idx) []).
+    (ileaf t (xi i), nth i (cps_of (ipath t) idx) []).
   Definition scol (lv : level) (i : nat) : list Fp2 * list digest :=
     (remove_total (wi lv (xi i)) (coset lv (xi i)),
-     nth i (cps_of (lleaves lv) (lv_k lv) (map (ci lv) idx)) []).
+     nth i (cps_of (lv_pth lv) (map (ci lv) idx)) []).
   Definition icolumn (i : nat) : list (list Fp * list digest) := map (fun t => icol t i) (seq 0 NT).
   Definition mkstep (ep : list Fp2 * list digest) : fri_query_step := {| fs_evals := fst ep; fs_siblings := snd ep |}.
 
@@ -709,38 +676,29 @@ Section RoundTrip.
   Proof.
     intros Ht. unfold compress_row.
     assert (E1 : map e_idx (map (fI t) idx) = idx) by (rewrite map_map; cbn; apply map_id).
-    assert (E2 : map e_path (map (fI t) idx) = map (opening (n - h) (T_ t)) idx) by (rewrite map_map; reflexivity).
-    assert (E3 : map e_leaf (map (fI t) idx) = map (fun x => nth x (T_ t) []) idx) by (rewrite map_map; reflexivity).
+    assert (E2 : map e_path (map (fI t) idx) = map (ipath t) idx) by (rewrite map_map; reflexivity).
+    assert (E3 : map e_leaf (map (fI t) idx) = map (ileaf t) idx) by (rewrite map_map; reflexivity).
     rewrite E1, E2, E3.
-    destruct (cps_of_ok (T_ t) n idx (T_len t Ht) h_le_n idx_ne idx_lt) as (Ec & _ & El).
-    rewrite Ec. rewrite (combine_pos (fun x => nth x (T_ t) []) _ [] El). reflexivity.
+    destruct (cps_of_ok n (ileaf t) (ipath t) idx (icps t Ht)) as (Ec & _ & El).
+    rewrite Ec. rewrite (combine_pos (ileaf t) _ [] El). reflexivity.
   Qed.
 
-  Lemma keys_ok lv : LvOk lv -> map (ci lv) idx <> [] /\ (forall i, In i (map (ci lv) idx) -> i < 2 ^ lv_k lv).
-  Proof.
-    intros Hlv. split.
-    - destruct idx; [contradiction|discriminate].
-    - intros i Hi. apply in_map_iff in Hi. destruct Hi as (x & <- & Hx). apply ci_lt; auto.
-  Qed.
-
-  Lemma lv_cps_ok lv : LvOk lv ->
+  Lemma lv_cps_ok lv : In lv L ->
     compress_merkle_proofs digest h (map (ci lv) idx) (map (lopen lv) idx)
-    = Some (cps_of (lleaves lv) (lv_k lv) (map (ci lv) idx))
+    = Some (cps_of (lv_pth lv) (map (ci lv) idx))
     /\ decompress_merkle_proofs Fp digest H T2 (map (fun x => flatten2 (coset lv x)) idx) (map (ci lv) idx)
-         (cps_of (lleaves lv) (lv_k lv) (map (ci lv) idx)) (lv_k lv) h = Some (map (lopen lv) idx)
-    /\ length (cps_of (lleaves lv) (lv_k lv) (map (ci lv) idx)) = N.
+         (cps_of (lv_pth lv) (map (ci lv) idx)) (lv_k lv) h = Some (map (lopen lv) idx)
+    /\ length (cps_of (lv_pth lv) (map (ci lv) idx)) = N.
   Proof.
-    intros Hlv. destruct (keys_ok lv Hlv) as [Kne Klt]. pose proof Hlv as (_ & Hh & Hlen & _).
-    destruct (cps_of_ok (lleaves lv) (lv_k lv) (map (ci lv) idx)) as (Ec & Ed & El); auto.
-    { rewrite lleaves_length. exact Hlen. }
-    assert (Em : map (opening (lv_k lv - h) (lleaves lv)) (map (ci lv) idx) = map (lopen lv) idx)
+    intros Hlv.
+    destruct (cps_of_ok (lv_k lv) _ (lv_pth lv) (map (ci lv) idx) (lcps lv Hlv)) as (Ec & Ed & El).
+    assert (Em : map (lv_pth lv) (map (ci lv) idx) = map (lopen lv) idx) by (rewrite map_map; reflexivity).
+    assert (El' : map (fun c => flatten2 (lv_cos lv c)) (map (ci lv) idx) = map (fun x => flatten2 (coset lv x)) idx)
       by (rewrite map_map; reflexivity).
-    assert (El' : map (fun i => nth i (lleaves lv) []) (map (ci lv) idx) = map (fun x => flatten2 (coset lv x)) idx).
-    { rewrite map_map. apply map_ext. intros x. rewrite lleaves_nth. reflexivity. }
     rewrite Em in Ec, Ed. rewrite El' in Ed. rewrite map_length in El. auto.
   Qed.
 
-  Lemma compress_row_step lv : LvOk lv ->
+  Lemma compress_row_step lv : In lv L ->
     compress_row h (map (fS lv) idx) = Some (map (scol lv) pos).
   Proof.
     intros Hlv. unfold compress_row.
@@ -796,7 +754,7 @@ Section RoundTrip.
       cbn [build_maps].
       rewrite (col_map icol pos d d (nth_error_seq0 N d Hlt)).
       pose proof (build_steps_spec d x Hlt arities layers 0 n (fun lv => MS_of lv (seq 0 d))
-                    (layers_ok_length _ _ _ Hok)) as Hbs.
+                    (flayers_ok_length _ _ _ Hok)) as Hbs.
       rewrite Nat.pow_0_r, Nat.div_1_r in Hbs. rewrite Hbs.
       assert (E1 : or_insert (MI_of (seq 0 d)) x (map (fun t => icol t d) (seq 0 NT)) = MI_of (seq 0 (S d))).
       { unfold MI_of. rewrite seq_S, fold_left_app. cbn [fold_left Nat.add]. rewrite Ex. reflexivity. }
@@ -834,7 +792,7 @@ Section RoundTrip.
     rewrite (map_opt_ext_in _ (fun t => map (icol t) pos)) by (intros t Ht; apply in_seq in Ht; apply compress_row_init; lia).
     rewrite map_opt_map.
     rewrite (map_opt_ext_in _ (fun lv => map (scol lv) pos))
-      by (intros lv Hlv; apply compress_row_step; exact (proj1 (Forall_forall _ _) L_ok lv Hlv)).
+      by (intros lv Hlv; apply compress_row_step; exact Hlv).
     assert (R3 : repeat (@nil (nat * fri_query_step)) (length arities) = map (fun lv => MS_of lv (seq 0 0)) L).
     { rewrite <- L_length. apply repeat_map_nil. }
     rewrite R3. change (@nil (nat * list (list Fp * list digest))) with (MI_of (seq 0 0)).
@@ -864,7 +822,7 @@ Section RoundTrip.
   Qed.
 
   Lemma LI_spec x t : In x idx -> t < NT ->
-    length (LI x) = NT /\ fst (nth t (LI x) d0) = nth x (T_ t) []
+    length (LI x) = NT /\ fst (nth t (LI x) d0) = ileaf t x
     /\ exists i, i < N /\ xi i = x /\ LI x = icolumn i.
   Proof.
     intros Hin Ht. destruct (MI_in x Hin) as (i & Hi & Ex & El). unfold LI. rewrite El.
@@ -916,7 +874,7 @@ Section RoundTrip.
   (* evals_by_depth after the queries [done]: the cosets reached so far, with their full evals *)
   Definition ES (done : list nat) (lv : level) (e : list (nat * list Fp2)) : Prop :=
     forall c, Dedup.lookup (list Fp2) e c
-              = if existsb (Nat.eqb c) (map (ci lv) done) then Some (nth c (lv_cosets lv) []) else None.
+              = if existsb (Nat.eqb c) (map (ci lv) done) then Some (lv_cos lv c) else None.
 
   (* the inferred elements consumed by query x after the queries [done]: at every layer whose
      coset was not reached before, the evaluation at x's position in the coset *)
@@ -947,7 +905,7 @@ Section RoundTrip.
   Qed.
 
   Lemma dec_steps_spec x done todo : idx = done ++ x :: todo -> forall arities0 layers0 s k ebd rest,
-    s + k = n -> layers_ok k arities0 layers0 ->
+    s + k = n -> flayers_ok k arities0 layers0 ->
     Forall2 (ES done) (levels s k arities0 layers0) ebd ->
     exists ebd',
       dec_steps (x / 2 ^ s) arities0 (map MS (levels s k arities0 layers0))
@@ -958,13 +916,13 @@ Section RoundTrip.
   Proof.
     intros Ei.
     assert (Hx : x < 2 ^ n) by (apply idx_lt; rewrite Ei; apply in_or_app; right; left; reflexivity).
-    induction arities0 as [|a at' IH]; intros [|c lt] s k ebd rest Hsk Hlok HE; cbn [layers_ok] in Hlok;
+    induction arities0 as [|a at' IH]; intros [|c lt] s k ebd rest Hsk Hlok HE; cbn [flayers_ok] in Hlok;
       try contradiction.
     - cbn [levels] in *. inversion HE; subst. exists []. split; [reflexivity|constructor].
     - pose proof (levels_ok (a :: at') (c :: lt) s k Hsk Hlok) as HL. cbn [levels] in HL, HE |- *.
       inversion HL as [|lv0 Lr Hlv0 _]; subst.
-      destruct Hlok as (Ha & Hl & Hc & Hr).
-      set (lv := {| lv_s := s; lv_a := a; lv_k := k - a; lv_cosets := c |}) in *.
+      destruct Hlok as (Ha & Hc & Hr).
+      set (lv := {| lv_s := s; lv_a := a; lv_k := k - a; lv_cos := fst c; lv_pth := snd c |}) in *.
       inversion HE as [|lv1 e Ls1 et He Het]; subst.
       destruct (MS_spec lv done x todo Ei) as (st & Est & Hst).
       cbn [map dec_steps stream_q flat_map]. rewrite div_pow_add.
@@ -1031,23 +989,23 @@ Section RoundTrip.
 
   Lemma decompress_row_init t : t < NT ->
     decompress_row H T2 h (map (gI t) idx, n)
-    = Some (map (fun x => (nth x (T_ t) [], opening (n - h) (T_ t) x)) idx).
+    = Some (map (fun x => (ileaf t x, ipath t x)) idx).
   Proof.
     intros Ht. unfold decompress_row. cbn [fst snd].
     assert (E1 : map e_idx (map (gI t) idx) = idx) by (rewrite map_map; cbn; apply map_id).
-    assert (E3 : map e_leaf (map (gI t) idx) = map (fun x => nth x (T_ t) []) idx).
+    assert (E3 : map e_leaf (map (gI t) idx) = map (ileaf t) idx).
     { rewrite map_map. apply map_ext_in. intros x Hx. unfold gI, e_leaf. cbn [fst snd].
       exact (proj1 (proj2 (LI_spec x t Hx Ht))). }
     assert (E2 : map e_path (map (gI t) idx) = map (fun x => snd (nth t (LI x) d0)) idx)
       by (rewrite map_map; reflexivity).
     rewrite E1, E2, E3.
-    destruct (cps_of_ok (T_ t) n idx (T_len t Ht) h_le_n idx_ne idx_lt) as (_ & Ed & El).
-    rewrite (decompress_junk Fp digest H T2 _ idx _ (cps_of (T_ t) n idx) n h).
+    destruct (cps_of_ok n (ileaf t) (ipath t) idx (icps t Ht)) as (_ & Ed & El).
+    rewrite (decompress_junk Fp digest H T2 _ idx _ (cps_of (ipath t) idx) n h).
     - rewrite Ed. rewrite combine_map2. reflexivity.
     - apply map_length.
     - exact El.
     - rewrite combine_self, <- (map_xi (fun x => (x, snd (nth t (LI x) d0)))).
-      assert (Ec : combine idx (cps_of (T_ t) n idx) = map (fun i => (xi i, nth i (cps_of (T_ t) n idx) [])) pos).
+      assert (Ec : combine idx (cps_of (ipath t) idx) = map (fun i => (xi i, nth i (cps_of (ipath t) idx) [])) pos).
       { rewrite <- (combine_pos (fun x => x) _ [] El). rewrite map_id. reflexivity. }
       rewrite Ec.
       pose proof (JR_firsts digest xi icolumn (fun col => snd (nth t col d0)) [] pos []) as HJ.
@@ -1056,13 +1014,13 @@ Section RoundTrip.
                    = map (fun y => (xi y, snd (nth t match lookup (map (fun x => (xi x, icolumn x)) pos) (xi y) with
                                                      | Some v => v | None => [] end d0))) pos).
       { apply map_ext. intros i. unfold LI. rewrite lookup_MI. reflexivity. }
-      assert (Eb : map (fun i => (xi i, nth i (cps_of (T_ t) n idx) [])) pos
+      assert (Eb : map (fun i => (xi i, nth i (cps_of (ipath t) idx) [])) pos
                    = map (fun y => (xi y, snd (nth t (icolumn y) d0))) pos).
       { apply map_ext. intros i. unfold icolumn. rewrite nth_map_seq by exact Ht. reflexivity. }
       rewrite Ea, Eb. exact HJ.
   Qed.
 
-  Lemma decompress_row_step lv : LvOk lv ->
+  Lemma decompress_row_step lv : In lv L ->
     decompress_row H T2 h (map (gS lv) idx, lv_k lv)
     = Some (map (fun x => (flatten2 (coset lv x), lopen lv x)) idx).
   Proof.
@@ -1073,7 +1031,7 @@ Section RoundTrip.
       by (rewrite map_map; reflexivity).
     rewrite E1, E2, E3.
     destruct (lv_cps_ok lv Hlv) as (_ & Ed & El).
-    set (cps := cps_of (lleaves lv) (lv_k lv) (map (ci lv) idx)) in *.
+    set (cps := cps_of (lv_pth lv) (map (ci lv) idx)) in *.
     rewrite (decompress_junk Fp digest H T2 _ (map (ci lv) idx) _ cps (lv_k lv) h).
     - rewrite Ed. rewrite combine_map2. reflexivity.
     - rewrite !map_length. reflexivity.
@@ -1090,12 +1048,12 @@ Section RoundTrip.
       rewrite Ea. exact HJ.
   Qed.
 
-  Lemma heights_scan_spec : forall arities0 layers0 s k, layers_ok k arities0 layers0 ->
+  Lemma heights_scan_spec : forall arities0 layers0 s k, flayers_ok k arities0 layers0 ->
     heights_scan k arities0 = Some (map lv_k (levels s k arities0 layers0)).
   Proof.
-    induction arities0 as [|a at' IH]; intros [|c lt] s k Hlok; cbn [layers_ok] in Hlok; try contradiction;
+    induction arities0 as [|a at' IH]; intros [|c lt] s k Hlok; cbn [flayers_ok] in Hlok; try contradiction;
       [reflexivity|].
-    destruct Hlok as (Ha & _ & _ & Hr). cbn [heights_scan levels map lv_k].
+    destruct Hlok as (Ha & _ & Hr). cbn [heights_scan levels map lv_k].
     replace (k <? a) with false by (symmetry; apply Nat.ltb_ge; exact Ha).
     rewrite (IH lt (s + a) (k - a) Hr). reflexivity.
   Qed.
@@ -1136,16 +1094,16 @@ Section RoundTrip.
                (repeat [] (length arities)) eq_refl ltac:(rewrite <- L_length; apply ES_nil)).
     rewrite map_map, combine_map2.
     rewrite (map_opt_map (decompress_row H T2 h)).
-    rewrite (map_opt_ext_in _ (fun t => map (fun x => (nth x (T_ t) [], opening (n - h) (T_ t) x)) idx))
+    rewrite (map_opt_ext_in _ (fun t => map (fun x => (ileaf t x, ipath t x)) idx))
       by (intros t Ht; apply in_seq in Ht; apply decompress_row_init; lia).
     rewrite (map_opt_map (decompress_row H T2 h)).
     rewrite (map_opt_ext_in _ (fun lv => map (fun x => (flatten2 (coset lv x), lopen lv x)) idx))
-      by (intros lv Hlv; apply decompress_row_step; exact (proj1 (Forall_forall _ _) L_ok lv Hlv)).
+      by (intros lv Hlv; apply decompress_row_step; exact Hlv).
     rewrite (map_opt_ext_in _ (fun i => gen_round L (xi i))).
     - rewrite (map_xi (gen_round L)), <- Hr. destruct pr; reflexivity.
     - intros i Hi. apply in_seq in Hi.
       assert (Hnth : nth_error idx i = Some (xi i)) by (apply nth_error_nth'; lia).
-      rewrite (col_map (fun t x => (nth x (T_ t) [], opening (n - h) (T_ t) x)) idx i (xi i) Hnth).
+      rewrite (col_map (fun t x => (ileaf t x, ipath t x)) idx i (xi i) Hnth).
       rewrite (col_map (fun lv x => (flatten2 (coset lv x), lopen lv x)) idx i (xi i) Hnth).
       unfold gen_round, gen_initial, gen_steps. f_equal. f_equal.
       rewrite map_map. apply map_ext. intros lv. cbn [fst snd]. rewrite unflatten2_flatten2. reflexivity.
@@ -1188,7 +1146,7 @@ Section RoundTrip.
 
   Lemma inferred_steps_spec x done todo : idx = done ++ x :: todo ->
     forall arities0 layers0 s k seen betas layer sx oe,
-    s + k = n -> layers_ok k arities0 layers0 ->
+    s + k = n -> flayers_ok k arities0 layers0 ->
     Forall2 (SeenR done) (levels s k arities0 layers0) seen ->
     steps_fold (gen_steps (levels s k arities0 layers0) x) arities0 betas layer (x / 2 ^ s) sx oe ->
     exists seen',
@@ -1199,12 +1157,12 @@ Section RoundTrip.
     intros Ei.
     assert (Hx : x < 2 ^ n) by (apply idx_lt; rewrite Ei; apply in_or_app; right; left; reflexivity).
     induction arities0 as [|a at' IH]; intros [|c lt] s k seen betas layer sx oe Hsk Hlok HS Hfold;
-      cbn [layers_ok] in Hlok; try contradiction.
+      cbn [flayers_ok] in Hlok; try contradiction.
     - cbn [levels] in *. inversion HS; subst. exists []. split; [reflexivity|constructor].
     - pose proof (levels_ok (a :: at') (c :: lt) s k Hsk Hlok) as HL. cbn [levels] in HL, HS, Hfold |- *.
       inversion HL as [|lv0 Lr Hlv0 _]; subst.
-      destruct Hlok as (Ha & Hl & Hc & Hr).
-      set (lv := {| lv_s := s; lv_a := a; lv_k := k - a; lv_cosets := c |}) in *.
+      destruct Hlok as (Ha & Hc & Hr).
+      set (lv := {| lv_s := s; lv_a := a; lv_k := k - a; lv_cos := fst c; lv_pth := snd c |}) in *.
       inversion HS as [|lv1 sn Ls1 snt Hsn Hsnt]; subst.
       cbn [map inferred_steps]. rewrite div_pow_add. change (x / 2 ^ (s + a)) with (ci lv x).
       destruct (existsb (Nat.eqb (ci lv x)) sn) eqn:Eb.
@@ -1295,46 +1253,155 @@ Section RoundTrip.
 End RoundTrip.
 
 (* ======================================================================================== *)
-(* 11. the theorem in terms of the prover's query function                                    *)
+(* 11. the theorem for rounds that open ONE tree per oracle and per layer, in terms of the
+       prover's query function (Model/FriProver.v)                                             *)
+Section Trees.
+  Variable H : list Fp -> digest.
+  Variable T2 : digest -> digest -> digest.
+  Notation opening := (Proofs.Merkle.opening Fp digest H T2).
 
-(* one tree per oracle with 2^lde_bits leaves; one tree per layer with the layer's number of cosets
-   of 2^arity_bits evaluations; the cap height does not exceed the height of the last layer *)
-Definition trees_ok (p : fri_params) (its : list (list (list Fp))) (layers : list (list (list Fp2))) : Prop :=
-  Forall (fun T => length T = 2 ^ lde_bits p) its
-  /\ layers_ok (cap_height (config p)) (lde_bits p) (reduction_arity_bits p) layers.
+  (* sizes of the commit-phase trees: layer of height k - a with 2^(k-a) cosets of 2^a values *)
+  Fixpoint layers_ok (h k : nat) (arities : list nat) (layers : list (list (list Fp2))) : Prop :=
+    match arities, layers with
+    | [], [] => h <= k
+    | a :: at', cosets :: lt =>
+      a <= k /\ length cosets = 2 ^ (k - a) /\ Forall (fun c => length c = 2 ^ a) cosets
+      /\ layers_ok h (k - a) at' lt
+    | _, _ => False
+    end.
 
-(* the query round q is what fri_prover_query_round produces at index x from these trees *)
-Definition round_opens (H : list Fp -> digest) (T2 : digest -> digest -> digest) (p : fri_params)
-           (its : list (list (list Fp))) (layers : list (list (list Fp2))) (x : nat) (q : fri_query_round) : Prop :=
-  initial_of H T2 its (cap_height (config p)) x = Some (qr_initial q)
-  /\ query_steps_of H T2 layers (reduction_arity_bits p) (cap_height (config p)) x = Some (qr_steps q).
+  Lemma layers_ok_h h : forall arities layers k, layers_ok h k arities layers -> h <= k.
+  Proof.
+    induction arities as [|a at' IH]; intros [|c lt] k Hok; cbn [layers_ok] in Hok; try contradiction; [exact Hok|].
+    destruct Hok as (Ha & _ & _ & Hr). apply IH in Hr. lia.
+  Qed.
 
-Theorem fri_decompress_compress H T2 inst openings ch pr p its layers :
-  fri_query_indices ch <> [] ->
-  (forall x, In x (fri_query_indices ch) -> x < 2 ^ lde_bits p) ->
-  trees_ok p its layers ->
-  Forall2 (round_opens H T2 p its layers) (fri_query_indices ch) (fp_rounds pr) ->
-  Forall2 (round_fold_ok inst openings ch p) (fri_query_indices ch) (fp_rounds pr) ->
-  exists cp inferred,
-    compress pr (fri_query_indices ch) p = Some cp
-    /\ get_inferred_elements inst openings ch cp p = Some inferred
-    /\ decompress H T2 cp (fri_query_indices ch) inferred p = Some pr.
-Proof.
-  intros Hne Hlt [Hits Hlay] Hopen Hfold.
-  pose proof (layers_ok_h _ _ _ _ Hlay) as Hh.
-  apply (round_trip_gen H T2 (cap_height (config p)) (lde_bits p) its Hits Hh (fri_query_indices ch) Hne Hlt
-           (reduction_arity_bits p) layers Hlay inst openings ch pr p); auto.
-  revert Hlt Hopen. generalize (fp_rounds pr) as rounds. generalize (fri_query_indices ch) as idx. clear Hfold Hne.
-  induction idx as [|x idx IH]; intros rounds Hlt Hopen; inversion Hopen as [|x' q idx' rounds' [Hi Hs] Hrest]; subst;
-    [reflexivity|].
-  cbn [map]. f_equal.
-  - assert (Hx : x < 2 ^ lde_bits p) by (apply Hlt; left; reflexivity).
-    rewrite (initial_of_gen H T2 _ _ its Hits Hh x Hx) in Hi.
-    pose proof (query_steps_of_gen H T2 _ _ Hh x Hx (reduction_arity_bits p) layers 0 (lde_bits p) eq_refl Hlay) as Hq.
-    rewrite Nat.pow_0_r, Nat.div_1_r in Hq. rewrite Hq in Hs.
-    destruct q as [qi qs]. cbn [qr_initial qr_steps] in Hi, Hs. unfold gen_round. congruence.
-  - apply IH; [intros; apply Hlt; right; assumption|exact Hrest].
-Qed.
+  (* the layers as functions of the coset index *)
+  Fixpoint tree_layers (h k : nat) (arities : list nat) (layers : list (list (list Fp2))) : list layer_fn :=
+    match arities, layers with
+    | a :: at', cosets :: lt =>
+      (fun c => nth c cosets [], fun c => opening (k - a - h) (map flatten2 cosets) c)
+      :: tree_layers h (k - a) at' lt
+    | _, _ => []
+    end.
+
+  Lemma tree_layers_ok h : forall arities layers k,
+    layers_ok h k arities layers -> flayers_ok h k arities (tree_layers h k arities layers).
+  Proof.
+    induction arities as [|a at' IH]; intros [|c lt] k Hok; cbn [layers_ok] in Hok; try contradiction;
+      cbn [tree_layers flayers_ok]; [exact Hok|].
+    destruct Hok as (Ha & Hl & Hc & Hr). split; [exact Ha|]. split; [|apply IH; exact Hr].
+    intros c0 Hc0. cbn [fst]. rewrite Forall_forall in Hc. apply Hc. apply nth_In. lia.
+  Qed.
+
+  Lemma tree_cps h k leaves keys :
+    length leaves = 2 ^ k -> h <= k -> keys <> [] -> (forall i, In i keys -> i < 2 ^ k) ->
+    CPS H T2 h k (fun i => nth i leaves []) (opening (k - h) leaves) keys.
+  Proof.
+    intros Hl Hh Hne Hlt.
+    destruct (Proofs.MerkleCompression.decompress_compress Fp digest H T2 leaves k h Hl Hh keys Hne Hlt)
+      as (cps & Ec & Ed).
+    exists cps. split; assumption.
+  Qed.
+
+  Lemma tree_levels_cps h n idx : idx <> [] -> (forall x, In x idx -> x < 2 ^ n) ->
+    forall arities layers s k, s + k = n -> layers_ok h k arities layers ->
+    forall lv, In lv (levels s k arities (tree_layers h k arities layers)) ->
+      CPS H T2 h (lv_k lv) (fun c => flatten2 (lv_cos lv c)) (lv_pth lv) (map (ci lv) idx).
+  Proof.
+    intros Hne Hlt. induction arities as [|a at' IH]; intros [|c lt] s k Hsk Hok lv Hlv;
+      cbn [layers_ok] in Hok; cbn [tree_layers levels] in Hlv; try contradiction.
+    destruct Hok as (Ha & Hl & Hc & Hr). destruct Hlv as [<-|Hlv]; [|exact (IH lt (s + a) (k - a) ltac:(lia) Hr lv Hlv)].
+    cbn [lv_k lv_cos lv_pth fst snd].
+    set (lv := {| lv_s := s; lv_a := a; lv_k := k - a; lv_cos := fun c0 => nth c0 c [];
+                  lv_pth := fun c0 => opening (k - a - h) (map flatten2 c) c0 |}).
+    destruct (tree_cps h (k - a) (map flatten2 c) (map (ci lv) idx)) as (cps & Ec & Ed).
+    - rewrite map_length. exact Hl.
+    - exact (layers_ok_h h _ _ _ Hr).
+    - destruct idx; [contradiction|discriminate].
+    - intros i Hi. apply in_map_iff in Hi. destruct Hi as (x & <- & Hx). unfold ci. cbn [lv_s lv_a lv].
+      apply div_pow_lt. replace (s + a + (k - a)) with n by lia. apply Hlt. exact Hx.
+    - exists cps. split; [exact Ec|].
+      replace (map (fun c0 => flatten2 (nth c0 c [])) (map (ci lv) idx))
+        with (map (fun i => nth i (map flatten2 c) []) (map (ci lv) idx)); [exact Ed|].
+      apply map_ext. intros c0. change (@nil Fp) with (flatten2 []). apply map_nth.
+  Qed.
+
+  Definition tleaf (its : list (list (list Fp))) (t x : nat) : list Fp := nth x (nth t its []) [].
+  Definition tpath (h n : nat) (its : list (list (list Fp))) (t x : nat) : list digest :=
+    opening (n - h) (nth t its []) x.
+
+  Lemma initial_of_gen h n its x :
+    Forall (fun T => length T = 2 ^ n) its -> h <= n -> x < 2 ^ n ->
+    initial_of H T2 its h x = Some (gen_initial (length its) (tleaf its) (tpath h n its) x).
+  Proof.
+    intros Hits Hh Hx. unfold gen_initial, tleaf, tpath.
+    rewrite <- (map_nth_seq (fun T => (nth x T [], opening (n - h) T x)) [] its).
+    revert Hits. generalize its as l. induction l as [|T l IH]; intros Hl; [reflexivity|].
+    cbn [initial_of map]. inversion Hl as [|? ? HT Hl']; subst.
+    rewrite (merkle_prove_spec Fp digest H T2 T n h x HT Hh Hx).
+    rewrite (IH Hl'). reflexivity.
+  Qed.
+
+  Lemma query_steps_of_gen h n x : x < 2 ^ n -> forall arities layers s k,
+    s + k = n -> layers_ok h k arities layers ->
+    query_steps_of H T2 layers arities h (x / 2 ^ s)
+    = Some (gen_steps (levels s k arities (tree_layers h k arities layers)) x).
+  Proof.
+    intros Hx. induction arities as [|a at' IH]; intros [|c lt] s k Hsk Hok; cbn [layers_ok] in Hok;
+      try contradiction; [reflexivity|].
+    destruct Hok as (Ha & Hl & Hc & Hr).
+    cbn [query_steps_of tree_layers levels gen_steps map].
+    rewrite div_pow_add.
+    assert (Hci : x / 2 ^ (s + a) < 2 ^ (k - a)) by (apply div_pow_lt; replace (s + a + (k - a)) with n by lia; exact Hx).
+    rewrite (merkle_prove_spec Fp digest H T2 (map flatten2 c) (k - a) h (x / 2 ^ (s + a)))
+      by (try (rewrite map_length; exact Hl); try exact Hci; apply (layers_ok_h h _ _ _ Hr)).
+    specialize (IH lt (s + a) (k - a) ltac:(lia) Hr). rewrite IH. reflexivity.
+  Qed.
+
+  (* one tree per oracle with 2^lde_bits leaves; one tree per layer with the layer's number of
+     cosets of 2^arity_bits evaluations; the cap height does not exceed the height of the last layer *)
+  Definition trees_ok (p : fri_params) (its : list (list (list Fp))) (layers : list (list (list Fp2))) : Prop :=
+    Forall (fun T => length T = 2 ^ lde_bits p) its
+    /\ layers_ok (cap_height (config p)) (lde_bits p) (reduction_arity_bits p) layers.
+
+  (* the query round q is what fri_prover_query_round produces at index x from these trees *)
+  Definition round_opens (p : fri_params) (its : list (list (list Fp))) (layers : list (list (list Fp2)))
+             (x : nat) (q : fri_query_round) : Prop :=
+    initial_of H T2 its (cap_height (config p)) x = Some (qr_initial q)
+    /\ query_steps_of H T2 layers (reduction_arity_bits p) (cap_height (config p)) x = Some (qr_steps q).
+
+  Theorem fri_decompress_compress inst openings ch pr p its layers :
+    fri_query_indices ch <> [] ->
+    (forall x, In x (fri_query_indices ch) -> x < 2 ^ lde_bits p) ->
+    trees_ok p its layers ->
+    Forall2 (round_opens p its layers) (fri_query_indices ch) (fp_rounds pr) ->
+    Forall2 (round_fold_ok inst openings ch p) (fri_query_indices ch) (fp_rounds pr) ->
+    exists cp inferred,
+      compress pr (fri_query_indices ch) p = Some cp
+      /\ get_inferred_elements inst openings ch cp p = Some inferred
+      /\ decompress H T2 cp (fri_query_indices ch) inferred p = Some pr.
+  Proof.
+    intros Hne Hlt [Hits Hlay] Hopen Hfold.
+    set (h := cap_height (config p)) in *. set (n := lde_bits p) in *.
+    pose proof (layers_ok_h h _ _ _ Hlay) as Hh.
+    apply (round_trip_gen H T2 h n (length its) (tleaf its) (tpath h n its) (fri_query_indices ch) Hne Hlt)
+      with (arities := reduction_arity_bits p) (layers := tree_layers h n (reduction_arity_bits p) layers); auto.
+    - intros t Ht. apply tree_cps; auto. rewrite Forall_forall in Hits. apply Hits. apply nth_In. exact Ht.
+    - apply tree_layers_ok. exact Hlay.
+    - apply (tree_levels_cps h n (fri_query_indices ch) Hne Hlt _ _ 0 n eq_refl Hlay).
+    - revert Hlt Hopen. generalize (fp_rounds pr) as rounds. generalize (fri_query_indices ch) as idx. clear Hfold Hne.
+      induction idx as [|x idx IH]; intros rounds Hlt Hopen; inversion Hopen as [|x' q idx' rounds' [Hi Hs] Hrest]; subst;
+        [reflexivity|].
+      cbn [map]. f_equal.
+      + assert (Hx : x < 2 ^ n) by (apply Hlt; left; reflexivity).
+        fold h in Hi, Hs. rewrite (initial_of_gen h n its x Hits Hh Hx) in Hi.
+        pose proof (query_steps_of_gen h n x Hx (reduction_arity_bits p) layers 0 n eq_refl Hlay) as Hq.
+        rewrite Nat.pow_0_r, Nat.div_1_r in Hq. rewrite Hq in Hs.
+        destruct q as [qi qs]. cbn [qr_initial qr_steps] in Hi, Hs. unfold gen_round. congruence.
+      + apply IH; [intros; apply Hlt; right; assumption|exact Hrest].
+  Qed.
+End Trees.
 
 (* what is outside the query rounds is carried verbatim, by both functions, on every input *)
 Lemma compress_carries pr idx p cp : compress pr idx p = Some cp ->
